@@ -260,7 +260,8 @@ package sm4
 //@   (requires blocks (and (= (len X) 16) (= (len Y) 16)))
 //@   (fresh Z)
 //@   (ensures len (= (len Z) 16))
-//@   (ensures product (= (blk128 Z) (gf.mulr (old (blk128 X)) (old (row Y)) (off Y))))
+//@   (apply (apply-lemma gf.mulr_eq (X (blk128 X)) (r (row Y)) (o (off Y))))
+//@   (ensures product (= (blk128 Z) (gf.mul (old (blk128 X)) (old (blk128 Y)))))
 //@   (loop 1
 //@     (invariant range (and (bvsle 0 i) (bvsle i 128)))
 //@     (invariant shapes (and (= (len Z) 16) (= (len V) 16) (fresh-obj Z) (fresh-obj V) (distinct (obj Z) (obj V))))
@@ -306,25 +307,38 @@ package sm4
 //@     (unfold-init (gcm.ctr (old (blk128 Y_i)) 0))
 //@     (decreases (bvsub n i))))
 
+//@ (defmacro ghx1 (H X data) (gf.mul (bvxor (blk128 X) (gcm.pad16 (row data) (off data) (len data))) (blk128 H)))
 //@ (func "GHASH$1"
+//@   (uses "gcm")
 //@   (requires ptrs (and (not (isnil &X)) (not (isnil &H)) (not (= (obj &X) (obj &H)))))
 //@   (requires shapes (and (= (len X) 16) (= (len H) 16)))
 //@   (ensures shape (= (len X) 16))
+//@   (ensures fold (= (blk128 X) (gcm.absorb (old (blk128 H)) (old (blk128 X0)) (old (row data)) (off data) (len data))))
 //@   (modifies (deref &X))
 //@   (loop 1
 //@     (invariant shape (= (len X) 16))
-//@     (invariant window (and (bvsle 0 (len data)) (bvsle (len data) (cap data))))
+//@     (invariant window (and (bvsle 0 (len data)) (bvsle (len data) (cap data)) (= (obj data) (obj data@pre))))
 //@     (invariant frame (forall ((o Int) (a B64)) (=> (not (fresh-id o)) (= (select (select (heap b8) o) a) (select (select (old (heap b8)) o) a)))))
+//@     (invariant fold (= (gcm.absorb (blk128 H) (blk128 X) (row data) (off data) (len data))
+//@                        (gcm.absorb (blk128 H) (blk128 X@pre) (row data@pre) (off data@pre) (len data@pre))))
+//@     (unfold (gcm.absorb (blk128 H) (blk128 X) (row data) (off data) (len data))
+//@             (gcm.absorb (blk128 H) (ghx1 H X data) (row data) (bvadd (off data) 16) (bvsub (len data) 16))
+//@             (gcm.absorb (blk128 H) (ghx1 H X data) (row data) (bvadd (off data) (len data)) 0))
 //@     (decreases (len data))))
 //@ (func "GHASH$2" inline)
 
 //@ (func GHASH
+//@   (uses "gcm")
 //@   (requires hlen (= (len H) 16))
+//@   (unfold (gcm.absorb (blk128 H) #x00000000000000000000000000000000 (row A) (off A) (len A)))
+//@   (ensures ghash (= (blk128 X) (gcm.ghash (old (blk128 H)) (old (row A)) (off A) (len A) (old (row C)) (off C) (len C))))
 //@   (ensures len (= (len X) 16))
 //@   (ensures fresh (fresh-obj X)))
 
 //@ (func GetY0
+//@   (uses "gcm")
 //@   (requires hlen (= (len H) 16))
+//@   (ensures j0 (= (blk128 result) (gcm.j0 (old (blk128 H)) (old (row IV)) (off IV) (len IV))))
 //@   (requires ivlen (and (bvsge (len IV) 1) (bvsle (len IV) #x0000000010000000)))
 //@   (ensures len (= (len result) 16))
 //@   (ensures fresh (fresh-obj result)))
